@@ -27,7 +27,7 @@ RULE = ("one run = one Resampler with drawn period, max_data_age_in_periods, ini
         "buffer was resized; distinct = abstract digest of (sample kind, source) / tick sequence")
 QUICK_RUNS = 4000
 THOROUGH_RUNS = 250_000
-EXPECT_PROBES = ["stamp_exactly_T", "stamp_exactly_lower_edge", "future_stamp", "none_or_nan_sample", "buffer_resized",
+EXPECT_PROBES = ["equal_timestamps", "stamp_exactly_T", "stamp_exactly_lower_edge", "future_stamp", "none_or_nan_sample", "buffer_resized",
                  "buffer_limited_window", "empty_window", "silence_longer_than_max_age", "upsampling_period_known"]
 
 
@@ -41,7 +41,7 @@ def scenario(sim: Sim) -> None:
     from frequenz.sdk.timeseries._resampling import Resampler, ResamplerConfig
 
     ch = sim.ch
-    period_us = ch.choice("period", [1_000_000, 500_000, 2_000_000])
+    period_us = ch.choice("period", [1_000_000, 500_000, 2_000_000, 100_000, 300_000])
     period_s = period_us / 1e6
     max_age = ch.choice("max_age", [1.0, 1.5, 2.0, 3.0])
     warn_len = ch.choice("warn_len", [4, 8, 128])
@@ -159,12 +159,14 @@ def scenario(sim: Sim) -> None:
 
         async def produce(src: Src) -> None:
             n = 0
+            # sample ids (= values) ascend or descend: with equal timestamps the arrival order must win, not the value
+            descending = bool(ch.draw("descending_ids", 2))
             last_ts = sim.wall() - timedelta(seconds=10)
             gaps = ch.choice("gap_profile", [[50_000, 200_000], [100_000, 900_000], [700_000, 2_500_000],
                                              [2_000_000, 5_000_000], [10_000, 60_000]])
             while sim.now_us < end_us:
                 n += 1
-                sid = src.idx * 1_000_000 + n
+                sid = src.idx * 1_000_000 + (900_000 - n if descending else n)
                 mode = ch.weighted("stamp_mode", [8, 2, 2, 2, 2])
                 now = sim.wall()
                 if mode == 0:
@@ -179,6 +181,8 @@ def scenario(sim: Sim) -> None:
                     nxt_tick = now + timedelta(microseconds=(period_us - since % period_us) % period_us)
                     ts = nxt_tick if mode == 3 else nxt_tick + timedelta(microseconds=period_us) - timedelta(microseconds=max_age_us)
                 ts = max(ts, last_ts)
+                if ts == last_ts:
+                    sim.probe("equal_timestamps")
                 if ts > now:
                     sim.probe("future_stamp")
                     sim.nontrivial = True
